@@ -116,6 +116,12 @@ def generate(rng, tier, focus):
                             "step": rng.choice([None, 1, 2, -1, -2, 3])})
             else:
                 ops.append({"op": "iterate"})
+        # live iterators over the system, advanced one molecule at a time between the other accesses (they share the
+        # system's single file handle with every index / slice / len / second iterator)
+        for _ in range(rng.choice([0, 0, 1, 2, 4])):
+            ops.append({"op": rng.choice(["iter_new", "iter_step", "iter_step", "iter_step"]), "pick": rng.randrange(1000)})
+            if rng.random() < 0.5:
+                ops.append({"op": "index", "rel": rng.uniform(-1.0, 0.99)})
 
     def failing():
         c = rng.random()
@@ -134,8 +140,12 @@ def generate(rng, tier, focus):
         if rng.random() < 0.35:
             failing()
             observers()
-        ops.append({"op": "load", "species": s, "via": rng.choice(["path", "path", "moltop", "open_file"])})
-        observers()
+        # whether the harness looks right after the load is scheduled too: (load, load, observe) and
+        # (load, observe, load, observe) exercise different invalidation paths of anything the system caches
+        ops.append({"op": "load", "species": s, "via": rng.choice(["path", "path", "moltop", "open_file"]),
+                    "observe": rng.random() < 0.6})
+        if ops[-1]["observe"] or rng.random() < 0.5:
+            observers()
     if rng.random() < 0.5:
         failing()
     ops.append({"op": "observe_all"})
@@ -242,6 +252,7 @@ def execute(trace, ctx):
         return True
 
     snapshot = None
+    live = []        # [iterator, items delivered so far, expected list when it was created]
 
     def take_snapshot():
         return (len(system), dict(system.composition),
@@ -298,10 +309,38 @@ def execute(trace, ctx):
                             ctx.violate(P, "sliced-molecule", f"system[{a}:{b}:{op['step']}] item {k}: {m}")
                             break
                 ctx.op(kind, "neg" if (op["step"] or 1) < 0 else "pos")
+            elif kind == "iter_new":
+                if len(live) < 3:
+                    live.append([iter(system), 0, list(exp)])
+                ctx.op(kind)
+            elif kind == "iter_step":
+                if not live:
+                    continue
+                it = live[op["pick"] % len(live)]
+                try:
+                    g = next(it[0])
+                except StopIteration:
+                    if it[1] != len(it[2]):
+                        ctx.violate(P, "iteration-length", f"a live iterator stopped after {it[1]} molecules, expected {len(it[2])}")
+                    live.remove(it)
+                    ctx.op(kind, "exhausted")
+                    continue
+                if it[1] >= len(it[2]):
+                    ctx.violate(P, "iteration-length", f"a live iterator delivered more than the {len(it[2])} molecules present")
+                    live.remove(it)
+                    continue
+                m = mol_mismatch(g, it[2][it[1]], species)
+                if m:
+                    ctx.violate(P, "iterated-molecule", f"live iterator, item {it[1]} (other accesses were made between its steps): {m}",
+                                key="live")
+                it[1] += 1
+                ctx.probe("live_iterator_stepped_between_accesses")
+                ctx.op(kind, "ok")
             elif kind == "load":
                 s = op["species"]
                 if s in loaded:
                     continue
+                live.clear()      # what an iterator started before a load should deliver afterwards is not specified
                 try:
                     if op["via"] == "moltop":
                         system.add_molecule_top(MoleculeTop(itps[s]))
@@ -319,8 +358,12 @@ def execute(trace, ctx):
                 ctx.op(kind, str(len(loaded)))
                 if len(loaded) > 1:
                     ctx.probe("second_or_later_load")
-                observe_all(f"after loading {loaded}")
+                if op.get("observe", True):
+                    observe_all(f"after loading {loaded}")
+                else:
+                    ctx.probe("load_not_observed_at_once")
             elif kind == "load_fail":
+                live.clear()
                 before = take_snapshot()
                 fk = op["kind"]
                 path = None
